@@ -578,6 +578,48 @@ def freed_memory_case(run, n=3):
 BASELINE = {}
 
 
+def caller_errstate_case(run):
+    """the caller has chosen error settings other than numpy's defaults (everything ignored; a mixture; a callback): constructing and
+    renormalising shells, building a basis and every integral / evaluation leave exactly those settings in place"""
+    from gbasis.contractions import GeneralizedContractionShell
+    from gbasis.parsers import make_contractions
+    rng = run.rng
+    calls_seen = []
+    settings = [dict(divide="ignore", over="ignore", under="ignore", invalid="ignore"),
+                dict(divide="ignore", over="warn", under="ignore", invalid="ignore"),
+                dict(divide="call", over="call", under="ignore", invalid="call")]
+    old_err, old_call = dict(np.geterr()), np.geterrcall()
+    try:
+        for setting in settings:
+            np.seterrcall(lambda *a: calls_seen.append(a))
+            handler = np.geterrcall()
+            np.seterr(**setting)
+            sh = Shared(rng)
+            steps = [("GeneralizedContractionShell(...)", lambda: GeneralizedContractionShell(1, np.array([0.0, 0.5, -0.25]), np.array([[1.0, 0.5], [0.25, -2.0]]),
+                                                                                               np.array([0.75, 3.5]), "spherical")),
+                     ("assign_norm_cont()", lambda: sh.basis[0].assign_norm_cont()),
+                     ("make_contractions(...)", lambda: make_contractions({"H": [(0, np.array([1.5, 0.25]), np.array([[0.5], [0.75]])), (1, np.array([0.75]), np.array([[1.0]]))]},
+                                                                             ["H", "H"], np.array([[0.0, 0.0, 0.0], [0.0, 0.5, 1.25]]), "p"))]
+            cat = catalogue(sh)
+            steps += [(n, cat[n]) for n in cat if not n.startswith("bad_")]
+            run.case(("caller-errstate", tuple(sorted(setting.items()))), sample={"settings": setting, "calls": len(steps)})
+            run.count("calls under caller-chosen numpy error settings", len(steps))
+            for name, f in steps:
+                try:
+                    f()
+                    outcome = "returned"
+                except Exception as e:
+                    outcome = "raised " + type(e).__name__
+                if dict(np.geterr()) != setting or np.geterrcall() is not handler:
+                    run.violation(f"{name} ({outcome}) changed numpy's floating-point error settings chosen by the caller: {np.geterr()} (were {setting})",
+                                  {"case": "caller-errstate", "call": name, "settings": setting, "signature": {"kind": "purity-errstate"}})
+                    return False
+    finally:
+        np.seterr(**old_err)
+        np.seterrcall(old_call)
+    return True
+
+
 def global_state_unchanged(run, where):
     g1 = global_state()
     g0 = BASELINE["state"]
@@ -595,6 +637,7 @@ def check(run):
     edited_arguments(run, 2 if quick else 8)
     global_state_unchanged(run, "calls of the public integral and evaluation functions (edited_arguments)")
     freed_memory_case(run, 3 if quick else 12)
+    caller_errstate_case(run)
     lengths = [1, 2, 3, 5, 8, 13, 21, 30] if quick else [1, 2, 3, 4, 5, 6, 8, 10, 13, 16, 21, 25, 30] * 4
     for k, n in enumerate(lengths):
         history(run, n, k)
@@ -612,6 +655,9 @@ def replay(run, rep):
         BASELINE["state"] = global_state()
         edited_arguments(run, 2)
         global_state_unchanged(run, "calls of the public integral and evaluation functions")
+        return len(run.violations) == n0
+    if rep.get("case") == "caller-errstate":
+        caller_errstate_case(run)
         return len(run.violations) == n0
     if rep.get("case") == "freed-memory":
         freed_memory_case(run, 8)
